@@ -35,6 +35,27 @@ TSpawnGo     == IsEvent("SpawnGo") /\ \E s \in Spawners : SpawnGo(s) /\ sp[s].ne
 TOffer       == IsEvent("Offer") /\ CoreOffer(Core(Ev.c)) /\ res'[Core(Ev.c)] = Ev.a
 TCancel      == IsEvent("Cancel") /\ IF cancelled THEN UNCHANGED vars ELSE HostCancel
 
+\* joins: the hook knows the thread which is joined (Ev.c), not the core which joins it: TLC infers that one
+TJoinBegin     == IsEvent("PreJoin") /\ \E c \in Cores : JoinBegin(c, Core(Ev.c))
+TJoined        == IsEvent("Joined") /\ \E c \in Cores : jn[c].d = Core(Ev.c) /\ JoinEnd(c)
+TJoinFailed    == IsEvent("JoinFailed") /\ \E c \in Cores : jn[c].d = Core(Ev.c) /\ JoinFailed(c)
+TJoinCancelled == IsEvent("JoinCancelled") /\ \E c \in Cores : jn[c].d = Core(Ev.c) /\ JoinCancelled(c)
+\* a core which comes out of a join with the termination interrupt offers it (the only thing it may do)
+TJoinOffer     == IsEvent("Offer") /\ Ev.a = "term" /\ JoinOffer(Core(Ev.c))
+
+\* WaitNonConsuming: the event is logged inside the read lock, which is released right afterwards (no event can be
+\* logged after the release and still be in order): one look = RLock, read, RUnlock
+TWatchLook ==
+    /\ IsEvent("WatchRLock")
+    /\ wt.pc \in {"look", "ret"} /\ ~rw.w /\ Len(list) = Ev.c
+    /\ wt' = [pc |-> IF Len(list) = 0 THEN "ret" ELSE "look", seen |-> Len(list), n |-> 0,
+              z |-> wt.z + (IF Len(list) = 0 THEN 1 ELSE 0)]
+    /\ UNCHANGED <<list, rw, cst, res, work, cancelled, spawned, fatals, w, sp, calls, ret, hist, par, jn, joins>>
+\* (the watchers are not told apart in the trace: a return needs a look which saw the empty list and is not used up)
+TWatchReturn ==
+    /\ IsEvent("WatchReturn") /\ wt.z > 0 /\ wt' = [wt EXCEPT !.z = wt.z - 1]
+    /\ UNCHANGED <<list, rw, cst, res, work, cancelled, spawned, fatals, w, sp, calls, ret, hist, par, jn, joins>>
+
 TWaitRLock      == IsEvent("WaitRLock") /\ Held /\ WaitRLock /\ Len(list) = Ev.c
 TWaitSnapUnlock == IsEvent("WaitSnapUnlock") /\ WaitSnapUnlock
 TWaitRecv       == IsEvent("WaitRecv") /\ WaitPoll /\ w'.got = Core(Ev.c) /\ w'.goti = Ev.a /\ cst[Core(Ev.c)] = "offer"
@@ -43,7 +64,7 @@ TWaitPollEmpty  == \* the non-blocking receive found nothing (the core may have 
     /\ w.pc = IterPc /\ w.i <= Len(w.snap) /\ w.snap[w.i] = Core(Ev.c)
     /\ w' = [w EXCEPT !.i = w.i + 1]
     /\ H(0, "WaitPollEmpty")
-    /\ UNCHANGED <<list, rw, cst, res, work, cancelled, spawned, fatals, sp, calls, ret>>
+    /\ UNCHANGED <<list, rw, cst, res, work, cancelled, spawned, fatals, sp, calls, ret>> /\ UNCHANGED ext
 TWaitNilLock    == IsEvent("WaitNilLock") /\ Held /\ WaitNilLock /\ w.got = Core(Ev.c)
 TWaitNilAssign  == IsEvent("WaitNilAssign") /\ Held /\ WaitNilAssign
 TWaitNilUnlock  == IsEvent("WaitNilUnlock") /\ WaitNilUnlock
@@ -60,6 +81,8 @@ TReset ==
     /\ IsEvent("Reset")
     /\ \A c \in Cores : cst[c] \in {"unborn", "done"}
     /\ rw.r = 0 /\ ~rw.w /\ list = <<>> /\ w.pc = "idle"
+    /\ \A c \in Cores : jn[c].st = "none"
+    /\ wt.z = 0 /\ (wt.pc = "ret" \/ wt.seen = -1)      \* the watchers have returned
     /\ list' = <<>> /\ rw' = [r |-> 0, w |-> FALSE]
     /\ cst' = [c \in Cores |-> "unborn"] /\ res' = [c \in Cores |-> "nil"]
     /\ work' = [c \in Cores |-> InitWork]
@@ -67,11 +90,14 @@ TReset ==
     /\ w' = WIdle
     /\ sp' = [s \in Spawners |-> [st |-> "idle", new |-> 0]]
     /\ calls' = 0 /\ ret' = [k |-> "none"] /\ hist' = <<>>
+    /\ par' = [c \in Cores |-> 0] /\ jn' = [c \in Cores |-> NoJoin] /\ joins' = 0
+    /\ wt' = [pc |-> "look", seen |-> -1, n |-> 0, z |-> 0]
 
 TraceNext == TSpawnLock \/ TSpawnAppend \/ TSpawnUnlock \/ TSpawnGo \/ TOffer \/ TCancel \/ TWaitRLock
              \/ TWaitSnapUnlock \/ TWaitRecv \/ TWaitPollEmpty \/ TWaitNilLock \/ TWaitNilAssign \/ TWaitNilUnlock
              \/ TWaitErrLock \/ TWaitErrCancel \/ TWaitErrUnlock \/ TWaitDrainRecv \/ TWaitReturnErr
              \/ TWaitReturnNil \/ TWaitSleep \/ TReset
+             \/ TJoinBegin \/ TJoined \/ TJoinFailed \/ TJoinCancelled \/ TJoinOffer \/ TWatchLook \/ TWatchReturn
 
 TraceSpec == TraceInit /\ [][TraceNext]_tvars
 
